@@ -294,6 +294,8 @@ class World:
                     self.exec_ops(op.get("body", []), p)
                 finally:
                     self.depth -= 1
+                    # leaving the block is not a batch: the scales are what the last batch made them
+                    at_exit = {i: O.scale_snapshot(x) for i, x in self.deps.items() if x.model is not None and not x.broken and x.quantized} if self.focus("C12") else {}
         except (InjectedFault, InjectedInterrupt, WorkloadError) as e:
             exc = e
         except Exception as e:
@@ -307,6 +309,17 @@ class World:
             self.depth = depth_before
         after = R.ambient_snapshot()
         self.judged("C13")
+        if self.focus("C12") and entered:
+            for i, snap in (locals().get("at_exit") or {}).items():
+                x = self.deps.get(i)
+                if x is None or x.model is None:
+                    continue
+                now = O.scale_snapshot(x)
+                moved = sorted(n for n in snap if n in now and not all((a == b) or (a != a and b != b) for a, b in zip(snap[n], now[n])))
+                if moved:
+                    self.judged("C12")
+                    self.violate("C12", "ema", kind, {"cause": "scales_changed_on_exit", "exit": "normal" if exc is None else "exception"}, f"dep {i}: scales of {moved[:3]} changed when the Calibration block was left: {[snap[n] for n in moved[:2]]} -> {[now[n] for n in moved[:2]]}", p)
+                    x.broken = True
         if exit_failure is not None:
             self.probe("context_manager_raised")
             self.violate("C13", "exit_raises", kind, {"exc": type(exit_failure).__name__, "at": O.quanto_site(exit_failure)}, f"leaving (or entering) the Calibration block raised {exit_failure!r}", p)
